@@ -163,4 +163,21 @@ SEGMENTS = {
         sig="pub(crate) fn seg_t0(&self, mut host_cluster: u64, alloc_cnt: usize) -> Qcow2Result<Option<(u64, usize)>>",
         await_calls=["ensure_refblock_offset", "try_alloc_from_rb_slice", "free_clusters"],
     ),
+    # ---- header construction inside the formatter (child of meta::header: private raw header)
+    "F1": dict(
+        file="src/meta/header.rs", fn="format_qcow2", parent="src/meta/header.rs",
+        start=r"let l2_entries = ", end=r"let vec = h\.serialize_vec",
+        sig="pub(crate) fn seg_f1(&self, size: u64, cluster_bits: usize, refcount_order: u8, rc_table: (u64, u32), l1_table: (u64, u32)) -> Qcow2RawHeader",
+        pre="        let cluster_size = 1usize << cluster_bits;",
+        rewrites=[(r"\bSelf::", "Qcow2Header::")],
+        forbid=[],
+        post="        h",
+    ),
+    # ---- loading / creating a cached slice
+    "S0": dict(
+        file="src/dev/alloc.rs", fn="add_cache_slice", start="FULL",
+        sig="pub(crate) fn seg_s0<B: Table + std::fmt::Debug, E: TableEntry>(&self, cache: &KSlot<B>, top_e: &E, key: usize, slice_off: usize, slice: B) -> Qcow2Result<Option<()>>",
+        await_calls=["cluster_is_new", "call_read"],
+        rewrites=[(r"AsyncRwLock::new\(slice\)", "KLock::new(slice)"), (r"\.write\(\)\.await", ".kwrite()")],
+    ),
 }
